@@ -924,16 +924,17 @@ class NativeCircCLI(NativeCheck):
     def check(self, inp):
         import argparse, tempfile, shutil, os
         from pathlib import Path
-        from moPepGen.cli import parse_circexplorer as mod
+        import importlib
+        mod = importlib.import_module('moPepGen.cli.parse_circexplorer')
         data = Path(os.environ.get('PYVC_REPO', '/repo')) / 'test' / 'files'
         d = Path(tempfile.mkdtemp(prefix='verif_c17_'))
         try:
             top = argparse.ArgumentParser(prog='moPepGen')
-            sp = mod.add_subparser_parse_circexplorer(top.add_subparsers())
+            sp = mod.add_subparser_parse_circexplorer(top.add_subparsers(dest='command'))
             src = data / 'circRNA' / ('CIRCexplorer3_circularRNA_known.txt' if inp['v3'] else 'CIRCexplorer_circularRNA_known.txt')
             argv = ['-i', str(src), '-o', str(d / 'out.gvf'), '--source', 'circRNA', '--annotation-gtf', str(data / 'annotation.gtf'),
                     '--quiet'] + (['--circexplorer3'] if inp['v3'] else []) + inp['extra']
-            args = sp.parse_args(argv)
+            args = top.parse_args([sp.prog.split()[-1]] + argv)
             try:
                 args.func(args)
             except Exception as ex:
